@@ -410,9 +410,15 @@ func (fc *FnCtx) fieldAddr(st *State, base Val, idx int, pos token.Pos) Val {
 	fn := sym("addr$" + fc.typeName(owner) + "$" + f.Name())
 	if !fc.declared[fn] {
 		fc.declared[fn] = true
+
 		fc.addPre(fmt.Sprintf("(declare-fun %s (Int) Int)", fn))
 		fc.addAxiom(fn, fmt.Sprintf("(assert (forall ((p Int)) (! (not (= (%s p) 0)) :pattern ((%s p)))))", fn, fn))
 		fc.addAxiom(fn, fmt.Sprintf("(assert (forall ((p Int) (q Int)) (! (=> (= (%s p) (%s q)) (= p q)) :pattern ((%s p) (%s q)))))", fn, fn, fn, fn))
+		// addresses of different fields are different
+		for _, g := range fc.addrFns {
+			fc.addAxiom(fn, fmt.Sprintf("(assert (forall ((p Int) (q Int)) (! (not (= (%s p) (%s q))) :pattern ((%s p) (%s q)))))", fn, g, fn, g))
+		}
+		fc.addrFns = append(fc.addrFns, fn)
 	}
 	return Val{T: app(fn, base.T), Ty: types.NewPointer(f.Type())}
 }
